@@ -180,11 +180,13 @@ type c04Case struct {
 	St      ref.State `json:"state"`
 	MemSeed uint64    `json:"memseed"`
 	Fill    int       `json:"fill"`
+	Dumb    bool      `json:"dumb,omitempty"` // the emulator runs on the bundled 64 KiB DumbMemory instead of the recording bus
 }
 
 type c04Rig struct {
-	b   *bus.Rec
-	cpu z80.CPU
+	b    *bus.Rec
+	cpu  z80.CPU
+	dumb z80.DumbMemory
 }
 
 // run executes the case; "" = as defined.
@@ -198,6 +200,16 @@ func (r *c04Rig) run(c *c04Case, code []uint8) (msg string, eff c04Effect) {
 		return "HARNESS: not a C04 instruction", eff
 	}
 	r.cpu = z80.CPU{Memory: r.b, IO: r.b}
+	if c.Dumb {
+		if r.dumb == nil {
+			r.dumb = make(z80.DumbMemory, 65536)
+		}
+		for i := -2; i < 8; i++ {
+			r.dumb[c.St.PC+uint16(i)] = r.b.Peek(c.St.PC + uint16(i))
+			r.dumb[c.St.SP+uint16(i)] = r.b.Peek(c.St.SP + uint16(i))
+		}
+		r.cpu.Memory = r.dumb
+	}
 	eng.ToCPU(&c.St, &r.cpu)
 	if p := eng.SafeStep(&r.cpu); p != nil {
 		return fmt.Sprint("Step panicked: ", p), eff
@@ -215,6 +227,15 @@ func (r *c04Rig) run(c *c04Case, code []uint8) (msg string, eff c04Effect) {
 			m = ds[0].Msg
 		}
 		return eff.kind + ": " + m, eff
+	}
+	if c.Dumb {
+		// no access log on the bundled type: the defined writes must have arrived
+		for _, w := range eff.writes {
+			if r.dumb[w.Addr] != w.Val {
+				return fmt.Sprintf("%s on DumbMemory: mem[%04x]=%02x want %02x", eff.kind, w.Addr, r.dumb[w.Addr], w.Val), eff
+			}
+		}
+		return "", eff
 	}
 	// accesses: instruction bytes once each, then exactly the defined data reads and writes
 	var rd []uint16
@@ -349,7 +370,7 @@ func TestC04(t *testing.T) {
 	rapid.Check(t, func(t *rapid.T) {
 		d := drawStep(t, false)
 		one := func(code []uint8, st ref.State, tag uint64) {
-			c := c04Case{St: st, MemSeed: d.memSeed, Fill: d.fill}
+			c := c04Case{St: st, MemSeed: d.memSeed, Fill: d.fill, Dumb: d.variant&7 == 2}
 			full := append(append([]uint8{}, code...), d.ops[0], d.ops[1], d.ops[2])
 			msg, eff := rig.run(&c, full)
 			col.Eval(1)
@@ -416,6 +437,9 @@ func TestC04(t *testing.T) {
 		}
 		if d.aliased {
 			col.Label("aliased")
+		}
+		if d.variant&7 == 2 {
+			col.Label("machine:DumbMemory")
 		}
 		if d.st.SP < 2 || d.st.SP == 0xFFFF {
 			col.Label("sp-wraps")
@@ -513,4 +537,114 @@ func (r *c04Rig) roundTrip(c *c04RT) (msg string, skipped bool) {
 		return fmt.Sprintf("round trip kind %d is not the identity: %s", c.Kind, m), false
 	}
 	return "", false
+}
+
+// TestC04Programs: subroutine calls whose body patches its own return slot by every route the
+// instruction set offers (EX (SP),HL/IX/IY, POP/INC/PUSH, direct stores, INC/DEC SP, nested calls),
+// in lock-step with the reference model: a RET must take the address that is in memory now.
+func TestC04Programs(t *testing.T) {
+	col := stats.New("C04")
+	col.Sub = "programs"
+	defer finish(t, col)
+	col.Rule = "programs: CALL sub / CALL cc / RST with a generated body of stack-patching operations (EX (SP),rr, POP rr;INC rr;PUSH rr, LD (slot),HL, INC/DEC SP pairs, nested CALL, PUSH/POP) ending in RET / RET cc, " +
+		"run in lock-step with the reference model (registers, SP, PC, flags, memory image after every Step); non-trivial = the return slot was rewritten before the RET; distinct by hash(code, state)"
+	rig := newLockRig()
+	rapid.Check(t, func(t *rapid.T) {
+		d := drawStep(t, false)
+		st := d.st
+		st.PC = rapid.SampledFrom([]uint16{0x0100, 0x8000, 0xFFF0, 0x4000}).Draw(t, "org")
+		st.SP = rapid.SampledFrom([]uint16{0x9000, 0x0002, 0x0001, 0x0000, 0xFFFF, 0x7000}).Draw(t, "sp")
+		sub := st.PC + 0x40
+		var main []int
+		patched := false
+		// caller
+		switch rapid.IntRange(0, 2).Draw(t, "callKind") {
+		case 0:
+			main = []int{0xCD, int(sub & 0xff), int(sub >> 8)}
+		case 1:
+			cc := rapid.IntRange(0, 7).Draw(t, "cc")
+			main = []int{0xC4 | cc<<3, int(sub & 0xff), int(sub >> 8)}
+		default:
+			main = []int{0xCD, int(sub & 0xff), int(sub >> 8)}
+		}
+		for i := 0; i < 6; i++ {
+			main = append(main, 0x00)
+		}
+		main = append(main, 0x76)
+		// body
+		var body []int
+		n := rapid.IntRange(0, 5).Draw(t, "nbody")
+		for i := 0; i < n; i++ {
+			switch rapid.IntRange(0, 9).Draw(t, "bodyOp") {
+			case 0:
+				body = append(body, 0xE3) // EX (SP),HL
+				patched = true
+			case 1:
+				body = append(body, rapid.SampledFrom([]int{0xDD, 0xFD}).Draw(t, "xy"), 0xE3)
+				patched = true
+			case 2: // POP rr ; INC rr ; PUSH rr
+				p := rapid.IntRange(0, 2).Draw(t, "rr")
+				body = append(body, 0xC1|p<<4, 0x03|p<<4, 0xC5|p<<4)
+				patched = true
+			case 3: // POP IX ; INC IX ; PUSH IX
+				x := rapid.SampledFrom([]int{0xDD, 0xFD}).Draw(t, "xy")
+				body = append(body, x, 0xE1, x, 0x23, x, 0xE5)
+				patched = true
+			case 4: // LD HL,nn ; LD (slot),HL   (slot = SP after the CALL)
+				slot := st.SP - 2
+				ret := st.PC + 3 + uint16(rapid.IntRange(0, 5).Draw(t, "skip"))
+				body = append(body, 0x21, int(ret&0xff), int(ret>>8), 0x22, int(slot&0xff), int(slot>>8))
+				patched = true
+			case 5: // INC SP ; DEC SP
+				body = append(body, 0x33, 0x3B)
+			case 6: // PUSH AF ; POP AF
+				body = append(body, 0xF5, 0xF1)
+			case 7: // nested CALL to a bare RET
+				inner := sub + 0x30
+				body = append(body, 0xCD, int(inner&0xff), int(inner>>8))
+			case 8: // LD A,n ; OR A  (changes flags for a following RET cc)
+				body = append(body, 0x3E, int(rapid.Uint8().Draw(t, "n")), 0xB7)
+			default:
+				body = append(body, 0x00)
+			}
+		}
+		if rapid.Bool().Draw(t, "retcc") {
+			body = append(body, 0xC0|rapid.IntRange(0, 7).Draw(t, "cc2")<<3)
+		}
+		body = append(body, 0xC9)
+		c := soupCase{St: st, Code: main, MemSeed: d.memSeed, IOSeed: d.ioSeed, Fill: 0, IOFill: d.ioFill, Steps: 40}
+		for i, b := range body {
+			c.Actions = append(c.Actions, soupAction{AtStep: 0, Kind: "poke", Addr: sub + uint16(i), Val: b})
+		}
+		c.Actions = append(c.Actions, soupAction{AtStep: 0, Kind: "poke", Addr: sub + 0x30, Val: 0xC9})
+		msg, steps, trunc, classes := soupLockstep(rig, &c, map[string]bool{eng.KState: true, eng.KFlags: true, eng.KMemImg: true})
+		col.Eval(1)
+		if msg != "" {
+			violation(t, "C04", "soup", c, "reference model, every Step", msg)
+		}
+		if trunc {
+			col.Label("truncated")
+		}
+		rets := 0
+		for _, cl := range classes {
+			if cl == "RET" || cl == "RET cc" {
+				rets++
+			}
+		}
+		col.LabelN("steps", int64(steps))
+		if rets > 0 {
+			col.Label("ret-executed")
+		}
+		if patched && rets > 0 {
+			col.Label("return-slot-rewritten-before-ret")
+			h := stateHash(&st)
+			for _, b := range body {
+				h = stats.Hash(h, uint64(b))
+			}
+			col.Distinct(h)
+			if col.WantSample(h) {
+				col.Sample(h, c)
+			}
+		}
+	})
 }
